@@ -541,9 +541,12 @@ theorem headersStep_ok (N : Nat) (x : HSt) (hx : x.s.inp.length ≤ N) :
     by_cases hlive : Live x.s
     · have hdec := hlt hlive
       by_cases hsp : cIsSpace (x.s.readLine.1.getD 0 0) = true
-      · right
-        simp only [hsp, if_true]
-        split <;> exact ⟨_, rfl, by simp only []; omega, by simp only []; omega⟩
+      · simp only [hsp, if_true]
+        split
+        · left
+          exact ⟨_, rfl, by simp only []; omega⟩
+        · right
+          split <;> exact ⟨_, rfl, by simp only []; omega, by simp only []; omega⟩
       · simp only [hsp, Bool.false_eq_true, if_false]
         cases hf : findByte 58 (cstr (trimmed x.s.readLine.1)) with
         | none =>
